@@ -1,9 +1,7 @@
 \* GENERATED by gen_tokparam_cfgs.py
-\* ResumeEqFresh is not checked: GENUINE DEFECT of ParseTokenParam with POptTokSpTermF (4), reproduced on the
-\* real code: the separator position is computed with `if i >= offs+1 {return i-1} else {return i}` where offs
-\* is the offset THIS call started at.  wire a=""a : one call -> (ok,3); calls on a="" (more,4) and then
-\* a=""a resumed at 4 -> (ok,4).  (The one-shot answer 3 is the closing quote, not a separator, either.)
-\* It needs a resume point exactly at the token, which only a quoted value produces.
+\* POptTokSpTermF (4) with quoted values: the separator position returned when a new token follows the value
+\* is `i-1` iff buf[i-1] is LWS, else i (wire a=""a -> (ok,4) one-shot and resumed at 4); it does not depend on
+\* the offset the call started at, so ResumeEqFresh holds.
 SPECIFICATION Spec
 VIEW view
 CONSTANTS
@@ -17,5 +15,5 @@ CONSTANTS
   PCaps = {0}
   Junk = 34
   EmitOn = TRUE
-INVARIANTS Stable OffsSane Emit
+INVARIANTS ResumeEqFresh Stable OffsSane Emit
 CHECK_DEADLOCK FALSE
